@@ -14,7 +14,8 @@ def run(ctx):
     return ctx.finish(
         rule=("all extent vectors with entries in 0..B for dimensionality 1..5 (size_t: B=64/12/4/4/4 quick, 300/24/8/6/6 thorough; "
               "int, unsigned, unsigned char, long tuples at 2..5 dims), plus seeded random vectors with product <= 2*10^5, plus boxes of 8- and 16-bit tuples whose cell count is a multiple of 2^bits; the callback "
-              "records every tuple; oracle: count == product, all inside, sorted-unique has no duplicate (order not checked). "
+              "records every tuple; every exhaustive box of <= 3 dimensions (half of the others, a quarter of the random ones) is also walked with a hostile "
+              "callback that overwrites the CALLER'S extent object half-way (zeroes it / enlarges it): the box to visit is the one passed at the call; oracle: count == product, all inside, sorted-unique has no duplicate (order not checked). "
               "non-trivial = >= 2 dimensions and extents not all equal; distinct = hash of (tuple type, extents)"),
         assumptions=["order of visits is not part of the property and is not asserted",
                      "extents of random cases are capped so the product fits memory"],
